@@ -10,7 +10,11 @@ import WmModel.Props.C09Tie
 #print axioms Wm.Chain.decorateSubscriber_eq_compose
 #print axioms Wm.Chain.pub_decorators_in_order
 #print axioms Wm.Chain.sub_decorators_in_order
+#print axioms Wm.Chain.sub_decorators_in_order_from
 #print axioms Wm.Chain.msg_trace_spec
+#print axioms Wm.Chain.chain_perm_invariant
+#print axioms Wm.Chain.chain_sublist
+#print axioms Wm.Chain.plugins_loaded_before_handlers_start
 #print axioms Wm.Chain.exec_regs
 #print axioms Wm.Chain.started_frozen
 #print axioms Wm.Chain.program_chain_trace
